@@ -32,7 +32,7 @@ m = {
               'source_commits': [], 'add_only': True},
     'engines': [{'name': 'verus-contracts', 'path': 'tools/check.py',
                  'serves_properties': [c['property_id'] for c in checks],
-                 'kind_free_text': 'contract-based deductive verification: functions cut mechanically out of /repo (tools/vcgen.py, rules T1-T13), contracts from contracts/*.vc spliced in, Verus 0.2026.09.13/Z3 discharges every obligation function by function; vacuity canaries; bounded replay harness (replay/) on the real crate for counterexamples and leaf functions'}],
+                 'kind_free_text': 'contract-based deductive verification: functions cut mechanically out of /repo (tools/vcgen.py, rules T1-T14), contracts from contracts/*.vc spliced in, Verus 0.2026.09.13/Z3 discharges every obligation function by function; vacuity canaries; bounded replay harness (replay/) on the real crate for counterexamples and leaf functions'}],
     'checks': checks,
     'not_applicable': na,
     'notes': claims.get('notes', ''),
